@@ -34,6 +34,7 @@ var (
 	dumpLog  = flag.Bool("log", false, "debug: print the event log of -one / -replay")
 	maxRuns  = flag.Int("runs", 0, "stop after this many runs per worker (0 = budget only)")
 	sites    = flag.String("sites", "", "site table written by the rewriter (coverage only)")
+	witness  = flag.String("witness", "", "search a witness replay for this known-finding trigger and write it to -evidence")
 	detN     = flag.Int("det", 0, "determinism self-test: print seed and log hash of this many runs")
 )
 
@@ -46,6 +47,8 @@ func main() {
 		os.Exit(doOne())
 	case *detN > 0:
 		os.Exit(doDet())
+	case *witness != "":
+		os.Exit(doWitness())
 	case *worker >= 0:
 		os.Exit(doWorker())
 	default:
@@ -78,6 +81,50 @@ func doOne() int {
 	}
 	fmt.Printf("fails=%v other=%q quiet=%q steps=%d loghash=%s\n", res.Fails, res.OtherRule, res.Quiet, res.NSteps, res.LogHash)
 	return 0
+}
+
+// doWitness searches a minimised violation that a listed finding's trigger
+// classifies, and writes it as that finding's witness replay.
+func doWitness() int {
+	p := profile()
+	kf := loadKnown(*known, *prop)
+	sim.ForceNoAvoid = true
+	for r := 0; r < 200000; r++ {
+		rs := sim.Mix(*seed, 999, uint64(r))
+		plan, res, _ := sim.Generate(p, rs)
+		if len(res.Fails) == 0 {
+			continue
+		}
+		minp, _ := sim.Minimise(plan, res.Fails[0].Rule, 400)
+		mres, _ := sim.ExecPlan(minp)
+		if len(mres.Fails) == 0 {
+			continue
+		}
+		for _, k := range kf {
+			if k.trigger == *witness && sim.Trigger(k.trigger, minp, mres) {
+				hit := false
+				for _, f := range mres.Fails {
+					hit = hit || f.Rule == k.rule
+				}
+				if !hit {
+					continue
+				}
+				path, err := sim.WriteReplay(filepath.Dir(*evidence), minp, mres, "witness", len(plan.Cmds), "rule="+k.rule+" "+k.desc, 0)
+				if err != nil {
+					return fatal("%v", err)
+				}
+				if err := os.Rename(path, *evidence); err != nil {
+					return fatal("%v", err)
+				}
+				fmt.Println("witness written:", *evidence)
+				for _, l := range sim.Trace(mres) {
+					fmt.Println(l)
+				}
+				return 0
+			}
+		}
+	}
+	return fatal("no witness found")
 }
 
 func doDet() int {
@@ -281,9 +328,41 @@ func readHashes(path string, into map[uint64]bool) {
 	}
 }
 
+// replayWitnesses re-executes the witness of every finding listed for the
+// property and reports the ones that still fail.
+func replayWitnesses() (confirmed []string) {
+	for _, k := range loadKnown(*known, *prop) {
+		if k.witness == "" {
+			continue
+		}
+		path := k.witness
+		if !filepath.IsAbs(path) {
+			path = filepath.Join(filepath.Dir(*known), path)
+		}
+		rp, err := sim.ReadReplay(path)
+		if err != nil {
+			fmt.Printf("note: witness %s of a listed finding cannot be read: %v\n", k.witness, err)
+			continue
+		}
+		res, _ := sim.ExecPlan(&rp.Plan)
+		still := false
+		for _, f := range res.Fails {
+			still = still || f.Rule == k.rule
+		}
+		if still {
+			fmt.Printf("KNOWN-FINDING: property=%s rule=%s %s (witness %s)\n", *prop, k.rule, k.desc, k.witness)
+			confirmed = append(confirmed, k.rule+" "+k.witness)
+		} else {
+			fmt.Printf("note: listed finding no longer reproduces from its witness %s (rule %s)\n", k.witness, k.rule)
+		}
+	}
+	return confirmed
+}
+
 func doLeader() int {
 	profile()
 	start := time.Now()
+	witnessed := replayWitnesses()
 	dir, err := os.MkdirTemp("", "simrun-")
 	if err != nil {
 		return fatal("%v", err)
@@ -373,11 +452,12 @@ func doLeader() int {
 	sort.Slice(total.Violations, func(i, j int) bool { return total.Violations[i].Replay < total.Violations[j].Replay })
 	unknown := 0
 	knownSeen := map[string]bool{}
+	_ = witnessed
 	for _, v := range total.Violations {
 		if v.Known != "" {
 			if !knownSeen[v.Known] {
 				knownSeen[v.Known] = true
-				fmt.Printf("KNOWN-FINDING: property=%s %s\n", *prop, v.Known)
+				fmt.Printf("known finding met again by the exploration: %s (replay %s)\n", v.Known, v.Replay)
 			}
 			continue
 		}
